@@ -419,6 +419,11 @@ def c11(run):
                 body += rng.choice([' "quoted" ', ' (aside) ', '  ', ' said ', ' says '])
             src = 'X says ' + body + '\nsay X\n'
             cases.append(('str', src, body, None, body))
+    # degenerate shapes: a suffix with no word before it (after a comment / number / string), and the
+    # recorded finding F2: hundreds of fractional digits (the power of ten underflows)
+    cases.append(('num', "X is (c)'s foo\nsay X\n", [1, 3], None, "(c)'s foo"))
+    cases.append(('num', "X is a . (c)'re b\nsay X\n", [1, 2, 1], 1, "a . (c)'re b"))
+    cases.append(('num', 'X is abcdefghij. ' + 'abcdefghij ' * 322 + 'abcde\nsay X\n', [0] + [0] * 322 + [5], 1, 'F2-underflow-323'))
     reqs = ['parse ' + hx(c[1]) for c in cases]
     m, im = run.tie(reqs, proj=rock.erase_positions, functional=True, desc=lambda i: {'text': cases[i][1]})
     # values are also observed through execution
@@ -456,7 +461,8 @@ def c11(run):
                     run.fail({'text': src, 'digits': digits, 'want': want, 'got': got}, 'integer poetic literal below 2^53 is not exact')
             elif d > 8:
                 run.fail({'text': src, 'digits': digits, 'want': want, 'got': got, 'ulps': d},
-                         'poetic literal differs from the numeral its words spell by %d ulp' % d)
+                         'poetic literal differs from the numeral its words spell by %d ulp' % d,
+                         key='poetic:' + text if text.startswith('F2-') else None)
         else:
             body = c[2]
             run.case(src, len(body.strip()) > 0, dist='str')
